@@ -1,5 +1,4 @@
 (* Extra glue for areas whose model uses Z (signed). *)
-module ZA = Z
 open Model
 open Conv
 module ZA = Conv.ZA
